@@ -37,10 +37,12 @@ type mcase struct {
 // lockedAt / subsAt: what the history points provide.
 func lockedAt(pt string) int {
 	switch strings.TrimSuffix(strings.TrimSuffix(pt, "-v0"), "-v1") {
-	case "sub", "await-subfund2", "await-subsettle":
+	case "sub", "await-subfund2", "await-subsettle", "hub-fund2":
 		return 1
-	case "sub2", "await-subsettle2":
+	case "sub2", "await-subsettle2", "hub-settle2":
 		return 2
+	case "hub-settle":
+		return 1
 	}
 	return 0
 }
@@ -54,6 +56,13 @@ func (c *mcase) applies(pt string) bool {
 		return strings.HasPrefix(pt, "await-subfund") && lockedAt(pt) >= c.NeedsLocked
 	case "settle":
 		return strings.HasPrefix(pt, "await-subsettle") && lockedAt(pt)-1 >= c.NeedsLocked
+	case "hubfund":
+		return strings.HasPrefix(pt, "hub-fund") && lockedAt(pt) >= c.NeedsLocked
+	case "hubsettle":
+		return strings.HasPrefix(pt, "hub-settle") && lockedAt(pt)-1 >= c.NeedsLocked
+	}
+	if strings.HasPrefix(pt, "hub-") {
+		return false
 	}
 	if pt == "nochan" && (c.NeedsCh || c.NeedsLocked > 0 || c.NeedsSubs > 0) {
 		return false
@@ -905,6 +914,149 @@ func vsettleCases() (out []mcase) {
 	return out
 }
 
+// ---------------------------------------------------------------- the victim as hub: matched funding / settlement proposals
+
+func cloneSigs(in []wallet.Sig) []wallet.Sig {
+	out := make([]wallet.Sig, len(in))
+	for i, s := range in {
+		if s != nil {
+			out[i] = append(wallet.Sig{}, s...)
+		}
+	}
+	return out
+}
+
+// hubFundBase is M's own (intercepted) funding proposal to the hub: parent (10,10) -> (5,7) + locked 8
+// with index map [0,1]; B's matching proposal is already waiting at the hub.
+func (sc *mScene) hubFundBase() *vfundSpec {
+	r := sc.realVFund
+	if r == nil {
+		return nil
+	}
+	return &vfundSpec{U: &updSpec{St: r.State.Clone(), Actor: r.ActorIdx}, Params: r.Initial.Params.Clone(), Init: r.Initial.State.Clone(),
+		Sigs: cloneSigs(r.Initial.Sigs), IndexMap: append([]channel.Index{}, r.IndexMap...)}
+}
+
+func (sc *mScene) hubSettleBase() *vsettleSpec {
+	r := sc.realVSet
+	if r == nil {
+		return nil
+	}
+	return &vsettleSpec{U: &updSpec{St: r.State.Clone(), Actor: r.ActorIdx}, Params: r.Final.Params.Clone(), Final: r.Final.State.Clone(), Sigs: cloneSigs(r.Final.Sigs)}
+}
+
+type hubMut struct {
+	Name        string
+	Proto       bool
+	NeedsLocked int
+	F           func(sc *mScene, f *vfundSpec)
+}
+
+var hubFundMuts = []hubMut{
+	// honest: M (index 0) pays Alice's 5, the hub (index 1) pays Bob's 3
+	{Name: "debit-hub-all", F: func(_ *mScene, f *vfundSpec) { mShift(f.U, +5) }},
+	{Name: "debit-peer-all", F: func(_ *mScene, f *vfundSpec) { mShift(f.U, -3) }},
+	{Name: "debit-swapped", F: func(_ *mScene, f *vfundSpec) { mShift(f.U, +2) }},
+	{Name: "debit-hub-plus1", F: func(_ *mScene, f *vfundSpec) { mShift(f.U, +1) }},
+	{Name: "idxmap-both-hub", F: func(_ *mScene, f *vfundSpec) { f.IndexMap = []channel.Index{1, 1}; vLocked(f).IndexMap = f.IndexMap }},
+	{Name: "idxmap-both-peer", F: func(_ *mScene, f *vfundSpec) { f.IndexMap = []channel.Index{0, 0}; vLocked(f).IndexMap = f.IndexMap }},
+	{Name: "idxmap-swapped", F: func(_ *mScene, f *vfundSpec) { f.IndexMap = []channel.Index{1, 0}; vLocked(f).IndexMap = f.IndexMap }},
+	{Name: "suballoc-idxmap-differs", F: func(_ *mScene, f *vfundSpec) { vLocked(f).IndexMap = []channel.Index{1, 0} }},
+	{Name: "amount-more", F: func(_ *mScene, f *vfundSpec) {
+		x := vLocked(f)
+		x.Bals[0].Add(x.Bals[0], mBig(1))
+		f.U.St.Balances[0][1].Sub(f.U.St.Balances[0][1], mBig(1))
+	}},
+	{Name: "initial-sig-missing", F: func(_ *mScene, f *vfundSpec) { f.Sigs[1] = nil }},
+	{Name: "initial-version-1", F: func(_ *mScene, f *vfundSpec) { f.Init.Version = 1 }},
+	{Name: "more-sigs", Proto: true, F: func(_ *mScene, f *vfundSpec) { f.Sigs = append(f.Sigs, f.Sigs[0]) }},
+	{Name: "update-sig-garbage", F: func(_ *mScene, f *vfundSpec) { f.U.SigBy = "garbage" }},
+	{Name: "ver-plus2", F: func(_ *mScene, f *vfundSpec) { f.U.St.Version++ }},
+	{Name: "sum-plus1", F: func(_ *mScene, f *vfundSpec) { f.U.St.Balances[0][0].Add(f.U.St.Balances[0][0], mBig(1)) }},
+	{Name: "edit-other-id", NeedsLocked: 1, F: func(_ *mScene, f *vfundSpec) { f.U.St.Locked[0].ID = mFlipID(f.U.St.Locked[0].ID) }},
+	{Name: "edit-other-idxmap", NeedsLocked: 1, F: func(_ *mScene, f *vfundSpec) { f.U.St.Locked[0].IndexMap = []channel.Index{1, 0} }},
+	{Name: "drop-other", NeedsLocked: 1, F: func(_ *mScene, f *vfundSpec) {
+		f.U.St.Balances[0][0].Add(f.U.St.Balances[0][0], f.U.St.Locked[0].Bals[0])
+		f.U.St.Locked = f.U.St.Locked[1:]
+	}},
+}
+
+type hubSettleMut struct {
+	Name        string
+	Proto       bool
+	NeedsLocked int
+	F           func(sc *mScene, f *vsettleSpec)
+}
+
+var hubSettleMuts = []hubSettleMut{
+	// honest: the final virtual balances are (3,5): M gets 3, the hub gets Bob's 5
+	{Name: "credit-swapped", F: func(_ *mScene, f *vsettleSpec) { mShift(f.U, +2) }},
+	{Name: "credit-peer-all", F: func(_ *mScene, f *vsettleSpec) { mShift(f.U, +5) }},
+	{Name: "credit-hub-minus1", F: func(_ *mScene, f *vsettleSpec) { mShift(f.U, +1) }},
+	{Name: "credit-hub-all", F: func(_ *mScene, f *vsettleSpec) { mShift(f.U, -3) }},
+	// the initial state (5,3) instead of the final one, with its genuine signatures, credited accordingly
+	{Name: "final-is-initial-state", F: func(sc *mScene, f *vsettleSpec) {
+		if sc.realVFund == nil {
+			f.U = nil
+			return
+		}
+		f.Final = sc.realVFund.Initial.State.Clone()
+		f.Sigs = cloneSigs(sc.realVFund.Initial.Sigs)
+		mShift(f.U, +2)
+	}},
+	{Name: "final-sig-missing", F: func(_ *mScene, f *vsettleSpec) { f.Sigs[1] = nil }},
+	{Name: "more-sigs", Proto: true, F: func(_ *mScene, f *vsettleSpec) { f.Sigs = append(f.Sigs, f.Sigs[0]) }},
+	{Name: "keep-suballoc", F: func(_ *mScene, f *vsettleSpec) {
+		// credits the balances but leaves the sub-allocation in place (sum no longer preserved)
+		f.U.St.Locked = append(f.U.St.Locked, *channel.NewSubAlloc(f.Final.ID, f.Final.Balances.Sum(), []channel.Index{0, 1}))
+	}},
+	{Name: "update-sig-garbage", F: func(_ *mScene, f *vsettleSpec) { f.U.SigBy = "garbage" }},
+	{Name: "ver-plus2", F: func(_ *mScene, f *vsettleSpec) { f.U.St.Version++ }},
+	{Name: "edit-other-id", NeedsLocked: 1, F: func(_ *mScene, f *vsettleSpec) { f.U.St.Locked[0].ID = mFlipID(f.U.St.Locked[0].ID) }},
+	{Name: "edit-other-idxmap", NeedsLocked: 1, F: func(_ *mScene, f *vsettleSpec) { f.U.St.Locked[0].IndexMap = []channel.Index{1, 0} }},
+}
+
+func hubCases() (out []mcase) {
+	out = append(out, mcase{Name: "hubfund/valid", Cat: "hubfund", Sender: "M", Build: func(sc *mScene) wire.Msg {
+		if f := sc.hubFundBase(); f != nil {
+			return sc.finishVFund(f)
+		}
+		return nil
+	}})
+	for _, mu := range hubFundMuts {
+		mu := mu
+		out = append(out, mcase{Name: "hubfund/" + mu.Name, Cat: "hubfund", Sender: "M", Proto: mu.Proto, Mut: true, NeedsLocked: mu.NeedsLocked, Build: func(sc *mScene) wire.Msg {
+			f := sc.hubFundBase()
+			if f == nil || len(f.U.St.Locked)-1 < mu.NeedsLocked {
+				return nil
+			}
+			mu.F(sc, f)
+			return sc.finishVFund(f)
+		}})
+	}
+	out = append(out, mcase{Name: "hubsettle/valid", Cat: "hubsettle", Sender: "M", Build: func(sc *mScene) wire.Msg {
+		if f := sc.hubSettleBase(); f != nil {
+			return sc.finishVSettle(f)
+		}
+		return nil
+	}})
+	for _, mu := range hubSettleMuts {
+		mu := mu
+		out = append(out, mcase{Name: "hubsettle/" + mu.Name, Cat: "hubsettle", Sender: "M", Proto: mu.Proto, Mut: true, NeedsLocked: mu.NeedsLocked, Build: func(sc *mScene) wire.Msg {
+			f := sc.hubSettleBase()
+			if f == nil || len(f.U.St.Locked) < mu.NeedsLocked {
+				return nil
+			}
+			mu.F(sc, f)
+			if f.U == nil {
+				return nil
+			}
+			return sc.finishVSettle(f)
+		}})
+	}
+	return out
+}
+
 // ---------------------------------------------------------------- sync messages, unsolicited responses, control messages
 
 func (sc *mScene) curTX() channel.Transaction {
@@ -1002,6 +1154,7 @@ func allCases() []mcase {
 	out = append(out, autoCases()...)
 	out = append(out, vfundCases()...)
 	out = append(out, vsettleCases()...)
+	out = append(out, hubCases()...)
 	out = append(out, otherCases()...)
 	return out
 }
